@@ -13,6 +13,19 @@
 //!  (c) live TURN: rustrtc's TURN client (driven through `IceTransport`, public API) talks to the
 //!      `turn` crate's server through a forwarder that records and validates every unit the client
 //!      emits (Allocate / Refresh / CreatePermission / ChannelBind / Send / ChannelData).
+//!      The forwarder is also a *faulting front-end*: at scripted points of the client's life (the
+//!      unauthenticated Allocate, the authenticated Allocate, the Refresh / CreatePermission /
+//!      ChannelBind of the refresh cycle, any subset, in a row) it makes the server answer 401 / 438
+//!      with a fresh nonce (by replacing the request with one that carries an unknown nonce) and can
+//!      rewrite the REALM of that error response (rebuilt with the reference `stun` crate). RFC 5389
+//!      §10.2.3: the client retries with the REALM and NONCE of the error response, and the long-term
+//!      key is MD5(user ":" realm ":" pass) over *that* realm. `turn 0.17`'s server derives its key
+//!      from the REALM attribute of the request and keeps its nonces server-wide, so it stays the
+//!      independent judge of the retried request. Oracle on the client's messages only: USERNAME is
+//!      the configured one; REALM is the one announced together with the NONCE the request carries;
+//!      the first request of a method after a 401/438 for that method carries that (or a later)
+//!      nonce; MESSAGE-INTEGRITY verifies (reference `MessageIntegrity::check`) under the long-term
+//!      key of the realm the request itself advertises.
 //!  (d) candidate lines: `from_sdp(to_sdp(c)).to_sdp() == to_sdp(c)`.
 //!  (e) pair priorities: controlling(g,d) == controlled(d,g), identical ordering on both sides.
 //!
@@ -1104,12 +1117,56 @@ struct Unit {
     faulted: bool,
 }
 
+/// where in the client's life the front-end provokes a 401/438
+#[derive(Clone, Copy, PartialEq, Eq, Debug)]
+enum At {
+    /// the 401 that answers the first, unauthenticated Allocate (only its REALM can be rewritten)
+    Alloc401,
+    /// the authenticated Allocate
+    Alloc438,
+    /// a Refresh with LIFETIME > 0
+    Refresh,
+    /// a CreatePermission of the refresh cycle (after a Refresh with LIFETIME > 0 was seen; the
+    /// CreatePermission / ChannelBind of a connectivity check are never challenged: rustrtc abandons
+    /// such a check on any error, which is outside C16)
+    Perm,
+    /// a ChannelBind of the refresh cycle
+    Bind,
+}
+
+impl At {
+    fn name(self) -> &'static str {
+        match self {
+            At::Alloc401 => "alloc401",
+            At::Alloc438 => "alloc438",
+            At::Refresh => "refresh",
+            At::Perm => "perm",
+            At::Bind => "bind",
+        }
+    }
+    fn from_name(s: &str) -> Option<At> {
+        [At::Alloc401, At::Alloc438, At::Refresh, At::Perm, At::Bind].into_iter().find(|a| a.name() == s)
+    }
+}
+
+struct Challenge {
+    at: At,
+    /// REALM to announce in the error response (None: leave the server's)
+    realm: Option<String>,
+    done: bool,
+}
+
 #[derive(Default)]
 struct FaultPlan {
-    stale_allocate: bool,
-    stale_refresh: bool,
-    done_allocate: bool,
-    done_refresh: bool,
+    points: Vec<Challenge>,
+    /// a Refresh(LIFETIME>0) request has been seen: CreatePermission / ChannelBind now belong to the refresh cycle
+    refresh_seen: bool,
+    /// kinds whose latest request was challenged: the next request of that kind is the retry and passes
+    cooling: Vec<At>,
+    /// transaction id -> REALM to put into the error response to that transaction
+    rewrite: HashMap<[u8; 12], String>,
+    /// points that fired, "refresh:realm" / "refresh:nonce"
+    fired: Vec<String>,
 }
 
 #[derive(Clone, Copy, PartialEq, Eq, Debug)]
@@ -1133,43 +1190,88 @@ impl Rec {
         self.units.lock().push(Unit { c2s, bytes: bytes.to_vec(), faulted });
     }
 
-    /// Stale-nonce fault: the chosen authenticated request is replaced by a request of the same type
+    /// Challenge fault: the chosen authenticated request is replaced by a request of the same type
     /// and transaction id whose NONCE the server never issued -> the *server* answers 438 with a
-    /// fresh nonce, which the client must pick up.
+    /// fresh nonce, which the client must pick up. If the point carries a realm, the REALM of that
+    /// answer is rewritten on its way back (`rewrite_s2c`).
     fn fault(&self, unit: &[u8]) -> Option<Vec<u8>> {
         if unit.len() < 20 || unit[0] & 0xc0 != 0 {
             return None;
         }
         let mut m = Message::new();
         m.write(unit).ok()?;
-        if !m.contains(ATTR_MESSAGE_INTEGRITY) || ref_class_num(&m.typ) != 0 {
+        if ref_class_num(&m.typ) != 0 {
             return None;
         }
+        let has_mi = m.contains(ATTR_MESSAGE_INTEGRITY);
         let mnum = ref_method_num(m.typ.method);
         let mut plan = self.plan.lock();
-        let hit = if mnum == 3 && plan.stale_allocate && !plan.done_allocate {
-            plan.done_allocate = true;
-            true
-        } else if mnum == 4 && plan.stale_refresh && !plan.done_refresh {
+        let lifetime_positive = {
             let mut l = turn::proto::lifetime::Lifetime::default();
-            if l.get_from(&m).is_ok() && l.0.as_secs() > 0 {
-                plan.done_refresh = true;
-                true
-            } else {
-                false
-            }
-        } else {
-            false
+            l.get_from(&m).is_ok() && l.0.as_secs() > 0
         };
-        if !hit {
+        let at = match (mnum, has_mi) {
+            (3, false) => At::Alloc401,
+            (3, true) => At::Alloc438,
+            (4, true) if lifetime_positive => At::Refresh,
+            (8, true) if plan.refresh_seen => At::Perm,
+            (9, true) if plan.refresh_seen => At::Bind,
+            _ => return None,
+        };
+        if at == At::Refresh {
+            plan.refresh_seen = true;
+        }
+        if let Some(p) = plan.cooling.iter().position(|a| *a == at) {
+            // the retry of a challenged request
+            plan.cooling.remove(p);
             return None;
         }
+        let idx = plan.points.iter().position(|c| c.at == at && !c.done)?;
+        plan.points[idx].done = true;
+        let realm = plan.points[idx].realm.clone();
+        plan.fired.push(format!("{}:{}", at.name(), if realm.is_some() { "realm" } else { "nonce" }));
+        if let Some(r) = realm {
+            plan.rewrite.insert(m.transaction_id.0, r);
+        }
+        if at == At::Alloc401 {
+            // the server answers 401 by itself; only the response is touched
+            return None;
+        }
+        plan.cooling.push(at);
         let mut r = Message::new();
         r.typ = m.typ;
         r.transaction_id = m.transaction_id;
         r.write_header();
         TextAttribute::new(ATTR_NONCE, "c16-forwarder-stale-nonce".into()).add_to(&mut r).ok()?;
         MessageIntegrity(b"junk".to_vec()).add_to(&mut r).ok()?;
+        Some(r.raw)
+    }
+
+    /// server -> client: the 401/438 that answers a challenged transaction gets the scripted REALM
+    /// (same type, transaction id, error code and NONCE; rebuilt with the reference encoder)
+    fn rewrite_s2c(&self, unit: &[u8]) -> Option<Vec<u8>> {
+        if unit.len() < 20 || unit[0] & 0xc0 != 0 {
+            return None;
+        }
+        let mut m = Message::new();
+        m.write(unit).ok()?;
+        if ref_class_num(&m.typ) != 3 {
+            return None;
+        }
+        let mut ec = ErrorCodeAttribute::default();
+        ec.get_from(&m).ok()?;
+        if ec.code.0 != 401 && ec.code.0 != 438 {
+            return None;
+        }
+        let nonce = TextAttribute::get_from_as(&m, ATTR_NONCE).ok()?;
+        let realm = self.plan.lock().rewrite.remove(&m.transaction_id.0)?;
+        let mut r = Message::new();
+        r.typ = m.typ;
+        r.transaction_id = m.transaction_id;
+        r.write_header();
+        ec.add_to(&mut r).ok()?;
+        TextAttribute::new(ATTR_NONCE, nonce.text).add_to(&mut r).ok()?;
+        TextAttribute::new(ATTR_REALM, realm).add_to(&mut r).ok()?;
         Some(r.raw)
     }
 }
@@ -1193,8 +1295,9 @@ async fn udp_forwarder(rec: Arc<Rec>, server: SocketAddr) -> std::io::Result<(So
                     backs.push(AbortOnDrop(tokio::spawn(async move {
                         let mut b = vec![0u8; 65536];
                         while let Ok((n, _)) = s2.recv_from(&mut b).await {
-                            rec2.push(false, &b[..n], false);
-                            let _ = fc2.send_to(&b[..n], src).await;
+                            let unit = rec2.rewrite_s2c(&b[..n]).unwrap_or_else(|| b[..n].to_vec());
+                            rec2.push(false, &unit, false);
+                            let _ = fc2.send_to(&unit, src).await;
                         }
                     })));
                     s
@@ -1324,21 +1427,22 @@ async fn tcp_forwarder(rec: Arc<Rec>, server: SocketAddr) -> std::io::Result<(So
             conns.push(AbortOnDrop(tokio::spawn(async move {
                 let mut b = vec![0u8; 65536];
                 while let Ok((n, _)) = fs.recv_from(&mut b).await {
-                    rec_w.push(false, &b[..n], false);
+                    let unit = rec_w.rewrite_s2c(&b[..n]).unwrap_or_else(|| b[..n].to_vec());
+                    rec_w.push(false, &unit, false);
                     let mode = (*rec_w.tcp_mode.lock()).unwrap_or(TcpMode::Rfc);
                     let mut out = vec![];
                     match mode {
                         TcpMode::Rfc => {
-                            out.extend_from_slice(&b[..n]);
-                            if b[0] & 0xc0 == 0x40 {
+                            out.extend_from_slice(&unit);
+                            if !unit.is_empty() && unit[0] & 0xc0 == 0x40 {
                                 while out.len() % 4 != 0 {
                                     out.push(0);
                                 }
                             }
                         }
                         TcpMode::Len16Prefix => {
-                            out.extend_from_slice(&(n as u16).to_be_bytes());
-                            out.extend_from_slice(&b[..n]);
+                            out.extend_from_slice(&(unit.len() as u16).to_be_bytes());
+                            out.extend_from_slice(&unit);
                         }
                     }
                     if wr.write_all(&out).await.is_err() {
@@ -1426,7 +1530,11 @@ fn mname(n: u16) -> &'static str {
 
 /// Reference reading of FINGERPRINT / MESSAGE-INTEGRITY placement and validity (shared by TURN
 /// requests and relayed ICE Binding requests). `what` names the message for keys.
-fn check_mi_fp(out: &mut COut, what: &str, m: &mut Message, key: &[u8], bytes: &[u8]) {
+///
+/// `superseded`: long-term keys of realms the server announced *before* the one the request
+/// advertises, (realm, key). A MESSAGE-INTEGRITY that fails under `key` but verifies under one of
+/// them gets its own, narrower signature.
+fn check_mi_fp(out: &mut COut, what: &str, m: &mut Message, key: &[u8], bytes: &[u8], superseded: &[(String, Vec<u8>)]) {
     let n = m.attributes.0.len();
     let pos_mi = m.attributes.0.iter().position(|a| a.typ == ATTR_MESSAGE_INTEGRITY);
     let pos_fp = m.attributes.0.iter().position(|a| a.typ == ATTR_FINGERPRINT);
@@ -1446,11 +1554,21 @@ fn check_mi_fp(out: &mut COut, what: &str, m: &mut Message, key: &[u8], bytes: &
         }
         match MessageIntegrity(key.to_vec()).check(m) {
             Ok(()) => out.count("c.integrity_valid"),
-            Err(e) => out.viol(
-                format!("turn.c2s.{what}.integrity_invalid"),
-                "reference MessageIntegrity::check fails under the configured credentials",
-                json!({"err": e.to_string(), "bytes": hex_cap(bytes, 240)}),
-            ),
+            Err(e) => {
+                let stale = superseded.iter().find(|(_, k)| MessageIntegrity(k.clone()).check(&mut m.clone()).is_ok());
+                match stale {
+                    Some((old_realm, _)) => out.viol(
+                        format!("turn.c2s.{what}.integrity_keyed_with_superseded_realm"),
+                        "MESSAGE-INTEGRITY does not verify under the long-term key of the REALM the request advertises, but under the key of another (superseded) realm the server had announced",
+                        json!({"err": e.to_string(), "key_realm_that_verifies": old_realm, "bytes": hex_cap(bytes, 240)}),
+                    ),
+                    None => out.viol(
+                        format!("turn.c2s.{what}.integrity_invalid"),
+                        "reference MessageIntegrity::check fails under the configured credentials",
+                        json!({"err": e.to_string(), "bytes": hex_cap(bytes, 240)}),
+                    ),
+                }
+            }
         }
     }
 }
@@ -1491,7 +1609,7 @@ fn check_payload(out: &mut COut, ctx: &Ctx, seen_payloads: &mut HashSet<u32>, vi
             if !m.contains(ATTR_MESSAGE_INTEGRITY) || !m.contains(ATTR_FINGERPRINT) {
                 out.viol("turn.c2s.relayed_binding.unprotected", "ICE Binding request without MESSAGE-INTEGRITY/FINGERPRINT (RFC 8445 §7.1)", json!({"bytes": hex_cap(data, 200)}));
             }
-            check_mi_fp(out, "relayed_binding", &mut m, ctx.ice_remote_pwd.as_bytes(), data);
+            check_mi_fp(out, "relayed_binding", &mut m, ctx.ice_remote_pwd.as_bytes(), data, &[]);
         }
     } else {
         out.count("c.payload_other");
@@ -1499,10 +1617,16 @@ fn check_payload(out: &mut COut, ctx: &Ctx, seen_payloads: &mut HashSet<u32>, vi
 }
 
 fn validate(units: &[Unit], ctx: &Ctx, tcp_mode: Option<TcpMode>, out: &mut COut) -> (Option<SocketAddr>, HashSet<u32>) {
-    let key = turn::auth::generate_auth_key(&ctx.user, &ctx.realm, &ctx.pass);
+    // long-term key, reference implementation: MD5(user ":" realm ":" pass)
+    let lt_key = |realm: &str| MessageIntegrity::new_long_term_integrity(ctx.user.clone(), realm.to_string(), ctx.pass.clone()).0;
     let mut issued: Vec<String> = vec![];
-    // nonce the client must use next for a given method after that method got 401/438
-    let mut must_use: HashMap<u16, String> = HashMap::new();
+    // nonce -> REALM announced in the same 401/438; realms in the order of their first announcement
+    let mut announced: HashMap<String, String> = HashMap::new();
+    let mut realms: Vec<String> = vec![];
+    let mut last_req_realm: Option<String> = None;
+    // after a 401/438 for a method, the next request of that method must carry the nonce of that
+    // response or one issued later (index into `issued`)
+    let mut must_use: HashMap<u16, usize> = HashMap::new();
     let mut pending_bind: HashMap<[u8; 12], (u16, SocketAddr)> = HashMap::new();
     let mut ch2peer: HashMap<u16, SocketAddr> = HashMap::new();
     let mut peer2ch: HashMap<SocketAddr, u16> = HashMap::new();
@@ -1533,8 +1657,18 @@ fn validate(units: &[Unit], ctx: &Ctx, tcp_mode: Option<TcpMode>, out: &mut COut
                     }
                     if code == 401 || code == 438 {
                         if let Ok(n) = TextAttribute::get_from_as(&m, ATTR_NONCE) {
+                            must_use.insert(mn, issued.len());
                             issued.push(n.text.clone());
-                            must_use.insert(mn, n.text);
+                            if let Ok(r) = TextAttribute::get_from_as(&m, ATTR_REALM) {
+                                if realms.last().is_some_and(|l| *l != r.text) {
+                                    out.count("c.s2c.realm_changed");
+                                    out.seen.push(("c.realm_change_announced".into(), format!("{}/{code}/{tname}", mname(mn))));
+                                }
+                                if !realms.contains(&r.text) {
+                                    realms.push(r.text.clone());
+                                }
+                                announced.insert(n.text, r.text);
+                            }
                         }
                     }
                     out.count(format!("c.s2c.{}.error.{}", mname(mn), code));
@@ -1600,36 +1734,65 @@ fn validate(units: &[Unit], ctx: &Ctx, tcp_mode: Option<TcpMode>, out: &mut COut
                         Ok(t) => out.viol(format!("turn.c2s.{name}.username_differs"), "USERNAME differs from the configured one", json!({"got": t.text, "want": ctx.user})),
                         Err(e) => out.viol(format!("turn.c2s.{name}.username_unreadable"), "USERNAME missing/unreadable", json!({"err": e.to_string()})),
                     }
-                    match TextAttribute::get_from_as(&m, ATTR_REALM) {
-                        Ok(t) if t.text == ctx.realm => {}
-                        Ok(t) => out.viol(format!("turn.c2s.{name}.realm_differs"), "REALM differs from the one the server announced", json!({"got": t.text, "want": ctx.realm})),
-                        Err(e) => out.viol(format!("turn.c2s.{name}.realm_unreadable"), "REALM missing/unreadable", json!({"err": e.to_string()})),
-                    }
-                    match TextAttribute::get_from_as(&m, ATTR_NONCE) {
-                        Ok(t) => {
-                            if !issued.contains(&t.text) {
-                                out.viol(format!("turn.c2s.{name}.nonce_never_issued"), "NONCE was never issued by the server", json!({"got": t.text}));
-                            } else if let Some(n) = must_use.get(&mn) {
-                                // 401/438 dance: the retry of *that* request type must carry the nonce of the error
-                                if *n != t.text {
-                                    out.viol(format!("turn.c2s.{name}.retry_with_old_nonce"), "request after a 401/438 for the same method does not use the nonce of that response", json!({"got": t.text, "want": n}));
+                    let req_realm = match TextAttribute::get_from_as(&m, ATTR_REALM) {
+                        Ok(t) => Some(t.text),
+                        Err(e) => {
+                            out.viol(format!("turn.c2s.{name}.realm_unreadable"), "REALM missing/unreadable", json!({"err": e.to_string()}));
+                            None
+                        }
+                    };
+                    let req_nonce = match TextAttribute::get_from_as(&m, ATTR_NONCE) {
+                        Ok(t) => Some(t.text),
+                        Err(e) => {
+                            out.viol(format!("turn.c2s.{name}.nonce_unreadable"), "NONCE missing/unreadable", json!({"err": e.to_string()}));
+                            None
+                        }
+                    };
+                    if let Some(n) = &req_nonce {
+                        match issued.iter().rposition(|x| x == n) {
+                            None => out.viol(format!("turn.c2s.{name}.nonce_never_issued"), "NONCE was never issued by the server", json!({"got": n})),
+                            Some(pos) => {
+                                // 401/438 dance: the next request of *that* method carries the nonce of the error (or a later one)
+                                if let Some(need) = must_use.remove(&mn) {
+                                    if pos < need {
+                                        out.viol(format!("turn.c2s.{name}.retry_with_old_nonce"), "request after a 401/438 for the same method does not use the nonce of that response", json!({"got": n, "want": issued[need]}));
+                                    } else {
+                                        out.count("c.nonce_dance_followed");
+                                    }
+                                }
+                                if pos + 1 == issued.len() {
+                                    out.count("c.nonce_is_latest");
                                 } else {
-                                    out.count("c.nonce_dance_followed");
+                                    out.count("c.nonce_is_older_but_issued");
                                 }
                             }
-                            if issued.last() == Some(&t.text) {
-                                out.count("c.nonce_is_latest");
-                            } else {
-                                out.count("c.nonce_is_older_but_issued");
-                            }
                         }
-                        Err(e) => out.viol(format!("turn.c2s.{name}.nonce_unreadable"), "NONCE missing/unreadable", json!({"err": e.to_string()})),
                     }
-                    check_mi_fp(out, name, &mut m, &key, b);
+                    if let Some(r) = &req_realm {
+                        // REALM echoes the challenge the NONCE comes from (RFC 5389 §10.2.3)
+                        match req_nonce.as_ref().and_then(|n| announced.get(n)) {
+                            Some(ar) if ar == r => out.count("c.realm_matches_challenge"),
+                            Some(ar) => out.viol(format!("turn.c2s.{name}.realm_differs"), "REALM differs from the one the server announced together with the NONCE the request carries", json!({"got": r, "want": ar})),
+                            None if realms.contains(r) => {}
+                            None => out.viol(format!("turn.c2s.{name}.realm_differs"), "REALM differs from every realm the server announced", json!({"got": r, "announced": realms})),
+                        }
+                        if last_req_realm.as_ref().is_some_and(|l| l != r) {
+                            out.count("c.c2s.realm_change_followed");
+                            out.seen.push(("c.realm_change_followed".into(), format!("{name}/{tname}")));
+                        }
+                        if realms.len() >= 2 {
+                            out.count("c.c2s.authenticated_after_realm_change");
+                        }
+                        last_req_realm = Some(r.clone());
+                    }
+                    // the key the request claims: long-term key of the REALM it advertises
+                    let claimed = req_realm.clone().or_else(|| realms.last().cloned()).unwrap_or_else(|| ctx.realm.clone());
+                    let superseded: Vec<(String, Vec<u8>)> = realms.iter().filter(|x| **x != claimed).map(|x| (x.clone(), lt_key(x))).collect();
+                    check_mi_fp(out, name, &mut m, &lt_key(&claimed), b, &superseded);
                 } else if cl == 0 && mn != 3 && mn != 1 {
                     out.viol(format!("turn.c2s.{name}.unauthenticated"), "TURN request without MESSAGE-INTEGRITY (RFC 5766 §4)", json!({"bytes": hex_cap(b, 120)}));
                 } else if m.contains(ATTR_FINGERPRINT) {
-                    check_mi_fp(out, name, &mut m, &key, b);
+                    check_mi_fp(out, name, &mut m, &[], b, &[]);
                 }
                 let peer = {
                     let mut p = turn::proto::peeraddr::PeerAddress::default();
@@ -1745,8 +1908,62 @@ fn gen_cred(rng: &mut Rng, max: usize) -> String {
         .collect()
 }
 
+/// a realm different from `not` (and from each other with overwhelming probability), lengths 1..=max
+fn gen_other_realm(rng: &mut Rng, not: &str, max: usize) -> String {
+    loop {
+        let r = gen_cred(rng, max);
+        if r != not {
+            return r;
+        }
+    }
+}
+
 fn gen_c_scenarios(rng: &mut Rng, tier: Tier) -> Vec<Value> {
     let mut v = vec![];
+    // scenarios that wait for the 25 s refresh timer (Refresh + CreatePermission + ChannelBind refresh) come
+    // first so that they all start at once; the 401/438 front-end challenges them at every point where the
+    // client re-authenticates, with the same and with a CHANGED realm, singly and in a row
+    for i in 0..tier.pick(6, 24) {
+        let realm = gen_cred(rng, 17);
+        let mut ch = vec![];
+        let at = |rng: &mut Rng, at: &str, change: bool| {
+            let r = if change { Some(gen_other_realm(rng, &realm, if i % 2 == 0 { 13 } else { 41 })) } else { None };
+            json!({"at": at, "realm": r})
+        };
+        match i % 6 {
+            0 => ch.push(at(rng, "refresh", true)),
+            1 => ch.push(at(rng, "perm", true)),
+            2 => ch.push(at(rng, "bind", true)),
+            3 => {
+                // the whole life in a row: every challenge announces another realm
+                for p in ["alloc401", "alloc438", "refresh", "perm", "bind"] {
+                    ch.push(at(rng, p, true));
+                }
+            }
+            4 => {
+                // stale nonce, same realm, on the Refresh; changed realm on the ChannelBind
+                ch.push(at(rng, "refresh", false));
+                ch.push(at(rng, "bind", true));
+            }
+            _ => {}
+        }
+        if i >= 6 {
+            // thorough: more mixtures
+            for p in ["alloc401", "alloc438", "refresh", "perm", "bind"] {
+                if rng.chance(1, 4) && !ch.iter().any(|c: &Value| c["at"] == p) {
+                    let change = rng.chance(2, 3);
+                    ch.push(at(rng, p, change));
+                }
+            }
+        }
+        v.push(json!({
+            "part": "c", "transport": if i >= 6 && i % 6 == 5 { "tcp" } else { "udp" },
+            "user": gen_cred(rng, 13), "pass": gen_cred(rng, 30), "realm": realm,
+            "challenges": ch, "wait_refresh": true,
+            "dead_peers": 1, "wrap_channels": false, "payload_lens": [8, 13, 700],
+            "indication_peers": ["127.0.0.9:4444"],
+        }));
+    }
     let n = tier.pick(10, 300);
     for i in 0..n {
         let tcp = i % 5 == 4;
@@ -1755,23 +1972,22 @@ fn gen_c_scenarios(rng: &mut Rng, tier: Tier) -> Vec<Value> {
             lens.push(rng.range(8, 1200));
         }
         lens.push(1200);
+        let realm = gen_cred(rng, if i % 4 == 1 { 60 } else { 11 });
+        let mut ch = vec![];
+        if i % 3 == 0 {
+            // the very first challenge already names a realm of the front-end's choosing
+            ch.push(json!({"at": "alloc401", "realm": gen_other_realm(rng, &realm, 23)}));
+        }
+        if i % 2 == 1 {
+            // stale nonce on the authenticated Allocate: same realm / changed realm alternately
+            ch.push(json!({"at": "alloc438", "realm": if i % 4 == 1 { Some(gen_other_realm(rng, &realm, 23)) } else { None }}));
+        }
         v.push(json!({
             "part": "c", "transport": if tcp { "tcp" } else { "udp" },
-            "user": gen_cred(rng, if i % 3 == 0 { 40 } else { 9 }), "pass": gen_cred(rng, 30), "realm": gen_cred(rng, if i % 4 == 1 { 60 } else { 11 }),
-            "stale_allocate": i % 2 == 1, "stale_refresh": false, "wait_refresh": false,
+            "user": gen_cred(rng, if i % 3 == 0 { 40 } else { 9 }), "pass": gen_cred(rng, 30), "realm": realm,
+            "challenges": ch, "wait_refresh": false,
             "dead_peers": if i % 3 == 2 { 3 } else { rng.range(0, 3) }, "wrap_channels": i % 3 == 2, "payload_lens": lens,
             "indication_peers": ["127.0.0.9:4444", "[2001:db8::c16]:5", "[::1]:65535", "0.0.0.1:1"],
-        }));
-    }
-    // scenarios that wait for the 25 s refresh timer (Refresh + CreatePermission + ChannelBind refresh),
-    // one with a stale nonce on the Refresh
-    for i in 0..tier.pick(2, 12) {
-        v.push(json!({
-            "part": "c", "transport": if i % 3 == 2 { "tcp" } else { "udp" },
-            "user": gen_cred(rng, 13), "pass": gen_cred(rng, 30), "realm": gen_cred(rng, 17),
-            "stale_allocate": false, "stale_refresh": i % 2 == 0, "wait_refresh": true,
-            "dead_peers": 1, "wrap_channels": false, "payload_lens": [8, 13, 700],
-            "indication_peers": ["127.0.0.9:4444"],
         }));
     }
     v
@@ -1842,8 +2058,24 @@ async fn turn_live(sc: Value) -> COut {
     let rec = Arc::new(Rec {
         units: PMutex::new(vec![]),
         plan: PMutex::new(FaultPlan {
-            stale_allocate: sc["stale_allocate"].as_bool().unwrap_or(false),
-            stale_refresh: sc["stale_refresh"].as_bool().unwrap_or(false),
+            points: {
+                let mut pts: Vec<Challenge> = sc["challenges"]
+                    .as_array()
+                    .map(|a| {
+                        a.iter()
+                            .filter_map(|c| Some(Challenge { at: At::from_name(c["at"].as_str()?)?, realm: c["realm"].as_str().map(|x| x.to_string()), done: false }))
+                            .collect()
+                    })
+                    .unwrap_or_default();
+                // scenario files written before the challenge list existed
+                if sc["stale_allocate"].as_bool().unwrap_or(false) {
+                    pts.push(Challenge { at: At::Alloc438, realm: None, done: false });
+                }
+                if sc["stale_refresh"].as_bool().unwrap_or(false) {
+                    pts.push(Challenge { at: At::Refresh, realm: None, done: false });
+                }
+                pts
+            },
             ..Default::default()
         }),
         tcp_mode: PMutex::new(None),
@@ -2054,6 +2286,10 @@ async fn turn_live(sc: Value) -> COut {
             out.viol("turn.tcp.stream_unreadable", "the client's TCP stream cannot be cut into STUN / ChannelData units", json!({"err": e}));
         }
     }
+    for f in rec.plan.lock().fired.iter() {
+        out.seen.push(("c.challenge_points_fired".into(), format!("{f}/{}", if tcp { "tcp" } else { "udp" })));
+        out.count(format!("c.challenge_fired.{f}"));
+    }
     let (relayed, seen) = validate(&units, &ctx, mode, &mut out);
     // live part (b): the relay candidate rustrtc derived from the server's Allocate success
     if let (Some(r), Some(c)) = (relayed, relay.as_ref()) {
@@ -2209,6 +2445,7 @@ pub fn run(args: &Args) -> i32 {
     report.assume("ICE attributes (PRIORITY, ICE-CONTROLLING/-CONTROLLED, USE-CANDIDATE) are compared on the raw value the reference decoder extracts (webrtc-ice is not in the offline cache)");
     report.assume("padding bytes and RFFU bits are not compared (free in the RFCs); byte identity with the reference encoder is only counted");
     report.assume("part c drives rustrtc's TURN client through IceTransport (public API) against turn 0.17's server on loopback; the only hook is verif_turn_set_next_channel (channel wrap)");
+    report.assume("part c realm changes: the forwarder rewrites only the REALM of a 401/438 the server itself produced (fresh server nonce); turn 0.17 keys its integrity check on the REALM attribute of the request, so it still judges the retried request independently; only Allocate and the refresh cycle's Refresh/CreatePermission/ChannelBind are challenged (rustrtc abandons a connectivity check whose CreatePermission fails, which C16 does not cover)");
     report.max_samples = 8;
 
     if let Some(path) = &args.replay {
@@ -2263,7 +2500,7 @@ pub fn run(args: &Args) -> i32 {
         std::thread::Builder::new().name("c16-turn".into()).spawn(move || {
             let rt = build_runtime(6);
             rt.block_on(async move {
-                let sem = Arc::new(tokio::sync::Semaphore::new(6));
+                let sem = Arc::new(tokio::sync::Semaphore::new(9));
                 let mut hs = vec![];
                 for sc in scs {
                     let sem = sem.clone();
